@@ -13,6 +13,9 @@ CLAIMED = {
  "C01": ("who-may-call check over the VTA∪CHA call graph (no render path reaches a Put into a parse-tree pool), store lint on render-reachable functions, per-field must-assign / must-zero dataflow over every pool's acquire and release functions (with interprocedural initialiser summaries), borrow/release typestate in the parser",
          "Decides the ownership clauses for every history: a render can never release, recycle or write the cached tree; every live field of every pooled object is definitely re-initialised between owners; no value is left in two pools; memory borrowed from a pooled tokenizer is not used after the tokenizer's release. Equality of output bytes with a pristine process is argued from these, not observed.",
          "One frozen exception: the tokenizer's interning table survives reuse and is accepted only while its transparency sub-obligation holds. unsafe container-of in ReleaseTokenizer is recognised as 'releases its argument'. " + COMMON_NOTE, "§2 C01"),
+ "C02": ("static race detection by ownership classes + lockset: forward must-held-lock dataflow over SSA with inherited entry locksets along static call edges; every write (and every read of a written location) to non-fresh objects of shared struct types / package variables reachable from the concurrent API roots must hold the sibling mutex; provenance check that relative-name resolution never reads an Engine field; lock-leak check; pool hand-off typestate (R01.4)",
+         "Sound race-freedom argument for the engine's own shared memory under every schedule, given the class table: shared locations are lock-protected or never written from the concurrent roots, per-call objects change hands only through pools (R01.4), published parse trees are never written (R01.2), and relative names resolve from per-render state. That concurrent results equal serial results, and races inside user callbacks/writers, are not decided.",
+         "Assumes the class table is complete (per-call types listed in the evidence; every other struct type and every package variable is treated as shared) and that configuration calls are not concurrent with renders. " + COMMON_NOTE, "§2 C02"),
  "C03": ("enumeration of every map-ordered loop (range over map, loops over reflect MapKeys()/MapRange) on render paths from the typed AST + effect classification of the loop body (output writes, unsorted appends, accumulation, first-entry-wins, computed-key stores) + enumeration of time/rand/%p/goroutine sources on render paths against a frozen exemption table",
          "Decides 'independent of Go's map iteration order and of time/randomness except where exempt by definition' for every template and context: each map-ordered loop is over sorted keys or has no order-dependent effect. Printing of pointer-bearing user values via %v and cross-process equality are not decided.",
          "The effect classification is a deny-list of order-dependent effects chosen from the defects this code base exhibited (each confirmed by reading); an exotic order-dependent effect outside the list would be missed. " + COMMON_NOTE, "§2 C03"),
